@@ -31,6 +31,19 @@ func VerifC23_MatchStorageRule() {
 			if rt.Param("replication", 0) == 1 {
 				r.Replication = verifOptStr("replication")
 			}
+			if rt.Param("fields", 0) == 1 {
+				// which of the remaining string fields this rule sets
+				switch rt.Choice("fields", 5) {
+				case 1:
+					r.Ttl = rt.Str("ttl", 1)
+				case 2:
+					r.DiskType = rt.Str("disk", 1)
+				case 3:
+					r.Replication = rt.Str("replication", 1)
+				case 4:
+					r.Ttl, r.DiskType, r.Replication = rt.Str("ttl", 1), rt.Str("disk", 1), rt.Str("replication", 1)
+				}
+			}
 			rt.Assert(fc.AddLocationConf(r) == nil, "add-ok")
 			rules = append(rules, r)
 		}
@@ -60,6 +73,12 @@ func VerifC23_MatchStorageRule() {
 			if r.Replication != "" {
 				want.Replication = r.Replication
 			}
+			if r.Ttl != "" {
+				want.Ttl = r.Ttl
+			}
+			if r.DiskType != "" {
+				want.DiskType = r.DiskType
+			}
 			want.Fsync = want.Fsync || r.Fsync
 			if r.VolumeGrowthCount > 0 {
 				want.VolumeGrowthCount = r.VolumeGrowthCount
@@ -71,6 +90,8 @@ func VerifC23_MatchStorageRule() {
 	}
 	rt.Assert(got.Collection == want.Collection, "collection-from-longest-matching-rule-that-sets-it")
 	rt.Assert(got.Replication == want.Replication, "replication-from-longest-matching-rule-that-sets-it")
+	rt.Assert(got.Ttl == want.Ttl, "ttl-from-longest-matching-rule-that-sets-it")
+	rt.Assert(got.DiskType == want.DiskType, "disk-type-from-longest-matching-rule-that-sets-it")
 	rt.Assert(got.Fsync == want.Fsync, "fsync")
 	rt.Assert(got.VolumeGrowthCount == want.VolumeGrowthCount, "growth-count")
 	rt.Assert(got.ReadOnly == want.ReadOnly, "read-only")
